@@ -17,8 +17,10 @@ from . import gen
 from .expr import Unrecognised
 from .frag_balance import frag_balance
 from .frag_computed import frag_computed
+from .frag_entry_set import frag_entry_set
+from .frag_avl_key import frag_avl_key
 
-FRAGMENTS = [("balance", frag_balance), ("computed", frag_computed)]
+FRAGMENTS = [("balance", frag_balance), ("computed", frag_computed), ("entry_set", frag_entry_set), ("avl_key", frag_avl_key)]
 
 HEADER = """(** GENERATED from /repo's working tree by harness/translate/tie.py -- do not edit. *)
 From RP2V Require Import Base.Prelude Base.Time Base.Dec Model.Types.
